@@ -118,3 +118,9 @@ func verifBeforePut(_ *Pool, m *Message) {
 	m.msg.Token = VerifPoisonToken
 	verifLog("put %d", m)
 }
+
+// VerifTraceMark lets the harness put its own event about m (for example "hold", "unhold")
+// into the lifecycle trace, in order with the pool's events.
+func VerifTraceMark(kind string, m *Message) {
+	verifLog(kind+" %d", m)
+}
